@@ -1380,8 +1380,7 @@ fn fs_cmd_archive(
             return match cmd {
                 "readDirectory" => {
                     let files =
-                        list_archive_contents_cached(&mut source, &archive_path.to_string_lossy())
-                            .unwrap();
+                        list_archive_contents_cached(&mut source, &archive_path.to_string_lossy())?;
                     // info!(log, "got files:{:?}", files);
 
                     // special handling for e.g. bz2, .gz... where a single file is within the archive with "unknown" name ("data"):
@@ -1405,8 +1404,7 @@ fn fs_cmd_archive(
                 }
                 "stat" => {
                     let files =
-                        list_archive_contents_cached(&mut source, &archive_path.to_string_lossy())
-                            .unwrap();
+                        list_archive_contents_cached(&mut source, &archive_path.to_string_lossy())?;
                     // special handling for e.g. bz2, .gz... where a single file is within the archive with "unknown" name ("data"):
                     if files.len() == 1 && files[0] == "data" {
                         return Ok(
